@@ -167,6 +167,9 @@ def run(chk):
     for v in prog.variants():
         vn = v.name
         chk.analysed["variants"] = chk.analysed.get("variants", 0) + 1
+        # R6 the rounding functions shift unsigned 64-bit quantities only
+        from sa import shifts as _shifts
+        _shifts.check(chk, v, "R6", ["libtfhe/numeric-functions.cpp"], "torus rounding")
         vals, intervals = {}, {}
         for name in FNS:
             f = v.fn(name)
